@@ -58,11 +58,11 @@ def ac_status_op(gen, acs):
         body = b""
         t = ((235 + 500) << 5) & 0xFFFF
         for a in acs:
-            body += bytes([(a.get("power", 1) << 6) | a["id"], (a.get("mode", 4) << 4) | a.get("fan", 0), a.get("setpoint", 22) & 0x3F,
+            body += bytes([(a.get("power", 1) << 6) | a["id"], (a.get("mode", 4) << 4) | a.get("fan", 0), (a.get("timer", 0) << 6) | (a.get("setpoint", 22) & 0x3F),
                            0, t >> 8, t & 0xFF, 0, 0])
         return consolesim.msg(0x2D, body)
     return consolesim.cs(0x23, 10, [[(a.get("power", 1) << 4) | a["id"], (a.get("mode", 4) << 4) | a.get("fan", 0),
-                                     a.get("setpoint", 22) * 10 - 100, 0, (735 >> 8), 735 & 255, 0, 0, 0, 0] for a in acs])
+                                     a.get("setpoint", 22) * 10 - 100, a.get("timer", 0), (735 >> 8), 735 & 255, 0, 0, 0, 0] for a in acs])
 
 
 def zone_status_op(gen, zones):
@@ -703,6 +703,11 @@ def build_script(gen, inst, plan, rng, counter):
             # an unsolicited status that covers only some ACs: the others keep what was reported before
             send = {a: v for n, (a, v) in enumerate(sorted(recs.items())) if n % 2 == 0}
         ops.append(timer_status_op(gen, send))
+        if rnd % 2 == 1:
+            # the AC status frames' own "a timer is set" flag goes up and down in between (a timer ran out, another is still pending):
+            # what a later timer call retains is what the last TIMER status reported, whatever that flag does
+            ops.append(ac_status_op(gen, [dict(a, timer=1) for a in acs]))
+            ops.append(ac_status_op(gen, [dict(a, timer=0) for a in acs]))
         for a in acs:
             if a["id"] not in send:
                 continue
